@@ -87,7 +87,7 @@ def e2e_universe(rng, kind, n):
     return ks
 
 
-def gen_script(rng, kind, nops):
+def gen_script(rng, kind, nops, with_clear=True):
     """-> (keys, pool of ops, top-level list of pool indices, bodies: id -> [segments of pool indices])"""
     target = rng.choice([12, 60, 200, 500])
     keys = e2e_universe(rng, kind, int(target * 2.5) + 20)
@@ -111,9 +111,9 @@ def gen_script(rng, kind, nops):
         if r < 0.9:
             return new(LEN)
         if r < 0.93 and not in_body:
-            return new(CLR)
+            return new(CLR) if with_clear else new(LEN)
         if r < 0.95 and in_body:
-            return new(CLR) if rng.random() < 0.3 else new(LEN)
+            return new(CLR) if (with_clear and rng.random() < 0.3) else new(LEN)
         val[0] += 1
         return new(SET, ki, val[0])
 
@@ -121,7 +121,7 @@ def gen_script(rng, kind, nops):
         top.append(new(NIL))
         for _ in range(rng.randint(2, 6)):
             ki = rng.randrange(len(keys))
-            top.append(new(rng.choice([GET, GET1, DEL, LEN, SET, CLR, RNG]), ki if True else 0, 1))
+            top.append(new(rng.choice([GET, GET1, DEL, LEN, SET, CLR, RNG]), ki, 1))   # clear(nil map) is a no-op
             if pool[top[-1]][0] == RNG:
                 pool[top[-1]] = (RNG, len(bodies), 0)
                 bodies.append([[new(LEN)]])
@@ -147,7 +147,7 @@ def gen_script(rng, kind, nops):
             top.append(new(rng.choice([GET, GET, GET1]), rng.randrange(len(keys))))
         elif r < 0.75:
             top.append(new(LEN))
-        elif r < 0.76:
+        elif r < 0.76 and with_clear:
             top.append(new(CLR))
             n_live = 0
             grow = True
@@ -314,7 +314,7 @@ func run_@KIND@() {
 '''
 
 
-def gen_program(rng, kinds, nops):
+def gen_program(rng, kinds, nops, with_clear=True):
     src = GO_PRELUDE + '''
 func vstr(v int32) string {
 	// "v" + decimal, without strconv
@@ -347,7 +347,7 @@ func vnum(s string) int64 {
 '''
     meta = {}
     for kind in kinds:
-        keys, pool, top, bodies = gen_script(rng, kind, nops)
+        keys, pool, top, bodies = gen_script(rng, kind, nops, with_clear)
         kt, vt = KIND_DECL[kind]
         t = GO_KIND.replace("@KIND@", kind).replace("@KT@", kt).replace("@VT@", vt)
         t = t.replace("@KEYS@", ", ".join(k.golit for k in keys))
@@ -371,8 +371,13 @@ def judge_trace(kind, m, lines):
     live, nans = {}, {}          # cid -> [v, inc] ; v -> [inc, ...]  (loop bodies re-execute ops: values repeat)
     isnil = True
     inc = 0
+    cleared_nans = set()
     loops = []                   # stack of active loops {"id", "must", "seen", "broke"}
-    bad = []
+    class _Bad(list):
+        def append(self, msg, tag="general"):
+            list.append(self, (msg, tag, cleared))
+    bad = _Bad()
+    cleared = False              # an effective clear() has happened
     done = False
 
     def removed(incs):
@@ -427,6 +432,9 @@ def judge_trace(kind, m, lines):
                     removed({live.pop(k.cid)[1]})
         elif c == CLR:
             exp = "ok"
+            if live or nans:
+                cleared = True
+                cleared_nans |= set(nans.keys())
             removed(set(e[1] for e in live.values()) | set(i for l in nans.values() for i in l))
             live, nans = {}, {}
         elif c == LEN:
@@ -470,7 +478,8 @@ def judge_trace(kind, m, lines):
                     e = live.get(kk.cid)
                     e_inc = e[1] if e and e[0] == vv else None
                 if e_inc is None:
-                    bad.append("op %d: range yields a deleted/overwritten entry: %s" % (oid, txt))
+                    bad.append("op %d: range yields a deleted/overwritten entry: %s" % (oid, txt),
+                               "nan-stale" if (not kk.refl and vv in cleared_nans) else "general")
                 elif e_inc in lp["seen"]:
                     bad.append("op %d: range yields an entry twice: %s" % (oid, txt))
                 else:
